@@ -231,6 +231,37 @@ def sunos_pid0_named(tree):
     raise NotRecognised("_proc_basic_info pid-0 guard not recognised")
 
 
+def win_maps_loop_guarded(tree):
+    """`_pswindows.Process.memory_maps`: is every `convert_dos_path(...)` call lexically inside the body of
+    the `try` whose `except OSError as err` does `raise convert_oserror(err, self.pid, self._name)`?"""
+    fn = extract.find_def(tree, "memory_maps", cls="Process")
+    calls = [n for n in ast.walk(fn) if isinstance(n, ast.Call) and extract.dotted(n.func) == "convert_dos_path"]
+    if not calls:
+        raise NotRecognised("memory_maps: no convert_dos_path call")
+    guarded = set()
+    for t in ast.walk(fn):
+        if not isinstance(t, ast.Try):
+            continue
+        ok = False
+        for h in t.handlers:
+            b = [s for s in h.body if not (isinstance(s, ast.Expr) and isinstance(s.value, ast.Constant))]
+            if "OSError" in _names_of(h.type) and len(b) == 1 and isinstance(b[0], ast.Raise) \
+                    and b[0].exc is not None \
+                    and extract.unparse(b[0].exc) in ("convert_oserror(err, self.pid, self._name)",
+                                                      "convert_oserror(err, pid=self.pid, name=self._name)"):
+                ok = True
+        if ok:
+            for st in t.body:
+                for n in ast.walk(st):
+                    if any(n is c for c in calls):
+                        guarded.add(id(n))
+    if len(guarded) == len(calls):
+        return True
+    if not guarded:
+        return False
+    raise NotRecognised("memory_maps: some convert_dos_path calls guarded, some not")
+
+
 # ------------------------------------------------------------------ methods / decorators (runtime)
 
 
